@@ -3,15 +3,15 @@
  "property": "C12",
  "standin": "B-gsu",
  "bound": "displays with <= 3 elements x 4 layouts x 4 kinds x delete subsets x 5 insert patterns (1500 sampled cases quick / all thorough) through the real apply_all + new_code",
- "input": "('call', 'single', ('f(5)', \"'s'\", '\"\"\"a\\nb\"\"\"'), (0,), {3: ['8', '9']})",
- "detail": "AssertionError: (Replacement(range=SourceRange(start=SourcePosition(lineno=1, col_offset=4), end=SourcePosition(lineno=2, col_offset=4)), text=', 8, 9', change_id=32), Replacement(range=SourceRange(start=SourcePosition(lineno=1, col_offset=16), end=SourcePosition(lineno=1, col_offset=22)), text='', change_id=32))"
+ "input": "('call', 'trailing', ('1', '0+2', '\"\"\"a\\nb\"\"\"'), (0, 1), {0: ['7'], 3: ['8']})",
+ "detail": "AssertionError: (Replacement(range=SourceRange(start=SourcePosition(lineno=1, col_offset=4), end=SourcePosition(lineno=2, col_offset=5)), text=', 8', change_id=61), Replacement(range=SourceRange(start=SourcePosition(lineno=1, col_offset=16), end=SourcePosition(lineno=1, col_offset=24)), text='7, ', change_id=61))"
 }
 """
 
 import sys, tempfile
 sys.path.insert(0, "/verif")
 from bounded.b_gsu import one_case
-msg = one_case(tempfile.mkdtemp(), *('call', 'single', ('f(5)', "'s'", '"""a\nb"""'), (0,), {3: ['8', '9']}))
-print(('call', 'single', ('f(5)', "'s'", '"""a\nb"""'), (0,), {3: ['8', '9']}), "->", msg)
+msg = one_case(tempfile.mkdtemp(), *('call', 'trailing', ('1', '0+2', '"""a\nb"""'), (0, 1), {0: ['7'], 3: ['8']}))
+print(('call', 'trailing', ('1', '0+2', '"""a\nb"""'), (0, 1), {0: ['7'], 3: ['8']}), "->", msg)
 assert msg is None, msg
 
